@@ -608,6 +608,8 @@ vbi_draw_vt_page_region(vbi_page *pg,
 	        vbi_rgba        rgba[64];
 	        uint8_t         pal8[64];
         } pen;
+	/* One character of double width (see below). */
+	uint32_t scratch[2 * TCW * TCH];
 	int count, row_adv;
 	int conceal, off, unicode;
 	vbi_char *ac;
@@ -653,6 +655,23 @@ vbi_draw_vt_page_region(vbi_page *pg,
 		ac = &pg->text[row * pg->columns + column];
 
 		for (count = width; count > 0; count--, ac++) {
+			uint8_t *dst = canvas;
+			int dst_stride = rowstride;
+			vbi_bool cut = FALSE;
+
+			if (1 == count
+			    && (VBI_DOUBLE_WIDTH == ac->size
+				|| VBI_DOUBLE_SIZE == ac->size
+				|| VBI_DOUBLE_SIZE2 == ac->size)) {
+				/* The right half of this character is
+				   outside the region (and possibly the
+				   canvas), draw elsewhere and copy the
+				   left half. */
+				cut = TRUE;
+				dst = (uint8_t *) scratch;
+				dst_stride = 2 * TCW * canvas_type;
+			}
+
 			if ((ac->conceal & conceal) || (ac->flash & off))
 				unicode = 0x0020;
 			else
@@ -676,17 +695,17 @@ vbi_draw_vt_page_region(vbi_page *pg,
 					uint8_t *font = pg->drcs[(unicode >> 6) & 0x1F];
 
 					if (font)
-						draw_drcs(canvas_type, canvas, rowstride,
+						draw_drcs(canvas_type, dst, dst_stride,
 							  (uint8_t *) &pen, ac->drcs_clut_offs,
 							  font, unicode & 0x3F, ac->size);
 					else /* shouldn't happen */
-						draw_blank(canvas_type, canvas, rowstride,
+						draw_blank(canvas_type, dst, dst_stride,
 							   ((canvas_type == 1) ? pen.pal8[0]: pen.rgba[0]),
                                                            TCW, TCH);
 				} else {
 					draw_char (canvas_type,
-						   canvas,
-						   rowstride,
+						   dst,
+						   dst_stride,
 						   (uint8_t *) &pen,
 						   (uint8_t *) wstfont2_bits,
 						   TCPL, TCW, TCH,
@@ -695,6 +714,14 @@ vbi_draw_vt_page_region(vbi_page *pg,
 						   ac->underline << 9 /* cell row 9 */,
 						   ac->size);
 				}
+			}
+
+			if (cut) {
+				for (i = 0; i < TCH; i++)
+					memcpy ((uint8_t *) canvas
+						+ i * rowstride,
+						dst + i * dst_stride,
+						TCW * canvas_type);
 			}
 
 			canvas = (uint8_t *)canvas + TCW * canvas_type;
